@@ -440,6 +440,40 @@ Proof.
   rewrite IH, app_length. cbn. lia.
 Qed.
 
+Lemma copy_cols_id cs src dst : existsb (col_eqb CId) cs = false -> r_id (copy_cols cs src dst) = r_id dst.
+Proof.
+  unfold copy_cols. revert dst; induction cs as [|c cs IH]; intros dst H; cbn in *; [reflexivity|].
+  apply orb_false_elim in H. destruct H as [H1 H2]. rewrite (IH _ H2). apply set_col_id.
+  destruct c; cbn in *; try reflexivity; discriminate.
+Qed.
+
+Lemma kept_no_id os cs : existsb (col_eqb CId) cs = false -> existsb (col_eqb CId) (kept os cs) = false.
+Proof.
+  unfold kept. induction cs as [|c cs IH]; intros H; cbn in *; [reflexivity|].
+  apply orb_false_elim in H. destruct H as [H1 H2]. destruct (negb (omitted os c)); cbn; [rewrite H1|]; auto.
+Qed.
+
+Lemma create_omit_wf t now os up v : wf t -> wf (res_tbl (create_omit t now os up v)).
+Proof.
+  intros Hwf. unfold create_omit.
+  set (v1 := copy_cols (kept os [CCat; CUat]) (fill_times now v) v).
+  set (k := if r_id v1 =? 0 then next_id t else r_id v1).
+  destruct (if r_id v1 =? 0 then None else lookup t k) as [old|] eqn:L.
+  - destruct up; cbn [res_tbl]; [|exact Hwf]. apply wf_upd'; [|exact Hwf]. intros r _.
+    assert (E : r_id (copy_cols (kept os [CName; CAge; CEmail; CDel]) v1 r) = r_id r)
+      by (apply copy_cols_id, kept_no_id; reflexivity).
+    destruct (omitted os CUat); [exact E|]. now rewrite with_uat_id.
+  - cbn [res_tbl]. apply wf_insert'; [exact Hwf|]. rewrite with_id_id.
+    destruct (r_id v1 =? 0) eqn:Z; [subst k; apply next_id_fresh|exact L].
+Qed.
+
+Lemma save_omit_wf t now os v : wf t -> wf (res_tbl (save_omit t now os v)).
+Proof.
+  intros Hwf. unfold save_omit. destruct (r_id v =? 0); [now apply create_omit_wf|].
+  destruct (0 <? count_where _ t); cbn [res_tbl]; [|now apply create_omit_wf].
+  apply wf_upd'; [|exact Hwf]. intros r _. apply copy_cols_id, kept_no_id. reflexivity.
+Qed.
+
 Lemma step_wf keep t now ch f : chain_keeps_key ch -> wf t -> wf (res_tbl (step keep t now ch f)).
 Proof.
   intros Hk Hwf. unfold step. destruct f.
@@ -449,6 +483,7 @@ Proof.
   - apply foc_wf; [|exact Hwf]. unfold run_chain.
     apply (chain_assigns (fun a => names_key (assign_map a) = false)); auto.
   - cbn [res_tbl]. unfold save_slice_run. now apply slice_run_wf.
+  - now apply save_omit_wf.
 Qed.
 
 (* a history = steps (now, chain, finisher) applied to the evolving table *)
